@@ -201,8 +201,13 @@ func writeSTL(wg *sync.WaitGroup, path string) (chan<- []*sdf.Triangle3, error) 
 
 		var count uint32
 		var d STLTriangle
+		var werr error
 		// read triangles from the channel and write them to the file
 		for ts := range c {
+			if werr != nil {
+				// keep draining the channel so the renderer is not blocked forever
+				continue
+			}
 			for _, t := range ts {
 				n := t.Normal()
 				d.Normal[0] = float32(n.X)
@@ -219,10 +224,14 @@ func writeSTL(wg *sync.WaitGroup, path string) (chan<- []*sdf.Triangle3, error) 
 				d.Vertex3[2] = float32(t[2].Z)
 				if err := binary.Write(buf, binary.LittleEndian, &d); err != nil {
 					fmt.Printf("%s\n", err)
-					return
+					werr = err
+					break
 				}
 				count++
 			}
+		}
+		if werr != nil {
+			return
 		}
 		// flush the triangles
 		buf.Flush()
